@@ -435,7 +435,7 @@ func (c *Ctx) ctorArgTypes(general *ssa.Function, opConst string, v ssa.Value, d
 			return nil, false
 		}
 		sl = slot{2, n}
-	case k == "$0" || strings.HasPrefix(k, "phi{$0|") || strings.HasPrefix(k, "phi{expr.literalToExpr"):
+	case k == "$0" || c.derivesFromParam(v, 0):
 		sl = slot{0, -1}
 	default:
 		return nil, false
@@ -581,4 +581,35 @@ func rulePHLINEARcore(c *Ctx, r *Report) {
 			r.bad("PH-LINEAR", "serialiser|"+typ, c.instrPos(row.P.Ret), "placeholders and parameters out of step")
 		}
 	}
+}
+
+// derivesFromParam: v is parameter #idx of its function, possibly passed through phis and in-module
+// helper calls applied to it (the constructor normalises `left` through wrapping helpers).
+func (c *Ctx) derivesFromParam(v ssa.Value, idx int) bool {
+	seen := map[ssa.Value]bool{}
+	var walk func(x ssa.Value) bool
+	walk = func(x ssa.Value) bool {
+		x = c.resolve(x, nil)
+		if seen[x] {
+			return true
+		}
+		seen[x] = true
+		switch y := x.(type) {
+		case *ssa.Parameter:
+			return y == y.Parent().Params[idx]
+		case *ssa.Phi:
+			for _, e := range y.Edges {
+				if !walk(e) {
+					return false
+				}
+			}
+			return true
+		case *ssa.Call:
+			if f := y.Call.StaticCallee(); f != nil && inModule(f) && len(y.Call.Args) == 1 {
+				return walk(y.Call.Args[0])
+			}
+		}
+		return false
+	}
+	return walk(v)
 }
